@@ -6,6 +6,7 @@ import (
 	"io"
 	"net"
 	"net/http"
+	"net/url"
 	"os"
 	"syscall"
 	"time"
@@ -166,4 +167,39 @@ func VerifEngineErrorComposition() {
 		}
 	}
 	gosym.Reach("end")
+}
+
+// VerifEnginePrefixInert decides the second half of C01's "route prefix removed" clause: the
+// handlers strip the route prefix (jobs route-prefix-stripped / provider-routes) and hand the
+// engines the *remaining* path, so the prefix the engines are configured with must be inert: for
+// the configuration the application builds (services/proxy.go createProxyConfiguration leaves
+// ProxyPrefix unset and the factory copies GetProxyPrefix() into both engines) no path a handler can
+// produce is stripped a second time, whatever bytes it holds.
+func VerifEnginePrefixInert() {
+	n := gosym.Param("LEN")
+	appCfg := &Configuration{ProxyPrefix: ""} // as createProxyConfiguration builds it
+	prefix := appCfg.GetProxyPrefix()          // what the factory copies into sherpa/olla Configuration
+	gosym.Reach("prefix-computed")
+	rest := gosym.String("rest", n)
+	p := "/" + rest
+	ep := &domain.Endpoint{Name: "A", URLString: "http://backend:11434"}
+	ep.URL = mustURL(ep.URLString)
+	r := &http.Request{Method: "POST", URL: mustURL("http://olla.local/")}
+	r.URL.Path = p
+	u := common.BuildTargetURL(r, ep, prefix)
+	// remainders without '.' and '%' bytes: dot-segment normalisation is C16's subject (A.6)
+	for i := 0; i < len(rest); i++ {
+		gosym.Assume(gosym.And(rest[i] != '.', rest[i] != '%'))
+	}
+	gosym.Reach("canonical")
+	gosym.Assert(u.Path == p, "C01: the engines do not strip anything from the path the handlers hand them (configured engine prefix is inert)")
+	gosym.Assert(u.Host == "backend:11434", "C01: the upstream host is the endpoint's")
+}
+
+func mustURL(s string) *url.URL {
+	u, err := url.Parse(s)
+	if err != nil {
+		panic(err)
+	}
+	return u
 }
